@@ -214,3 +214,11 @@ Qed.
 
 Corollary header_to_interval h r full : parse h = Some r -> check r full = rfc_interval r full.
 Proof. intros H. apply check_is_rfc. exact (parsed_is_wf h r H). Qed.
+
+(* the printer gives the canonical spelling of whatever the parser accepted: parse . print . parse = parse *)
+Corollary parse_print_parse h r : parse h = Some r -> parse (to_header r) = Some r.
+Proof.
+  pose proof I63_lt_U64 as HI.
+  intros H. apply parse_sound in H. apply parse_to_header.
+  destruct H as [ds _ Hv | ds1 ds2 _ _ Hle Hv | ds _ Hv]; auto.
+Qed.
